@@ -31,6 +31,8 @@ CHECKS['C02'] = (T % ('all ordered pulse pairs >= 2.5 segments apart in every la
          'Every qualifying pulse pair of every structure in the bound is compared (tens of thousands of matrix terms); worst deviation 3e-6 against the stated 1e-4.', 'scipy.integrate.quad; formulation as quoted in the statement', '3/C02')
 CHECKS['C10'] = (T % ('lattice structures with <=3 (thorough 4) wires and every description of the curved/tapered junction structures x 3 power/distance variants x a 7..13 x 10 direction grid', 'the reference radiation sum (moments at pulse points), the exact half-segment integral on the sub-alphabet, and the algebraic relations between dBi and V/m tables'),
          'Every structure in the bound is solved and every direction of the grid compared. The 2 % clause is enumerated on the sub-alphabet (>=4 segments/wire, L<=lambda/32); two concrete inputs outside it are listed known findings.', 'MININEC constants named in the statement', '3/C10')
+CHECKS['C04'] = (T % ('lattice structures with <=2 (thorough 3) wires in both orientations (all junction end combinations, grounding at either end, unequal radii/segment lengths) and every description of the arc/helix/taper junction structures x observation points next to every wire middle, junction and free end at 1/1.5/3 x max(L, 0.01 lambda) and 12 points at 100/1000 wavelengths x 3 power levels', 'an independent field evaluation of the solved pulse currents and charges (analytic gradients, 64-point Gauss, physical constants, image currents) and with the reported far field'),
+         'Every observation point of every structure in the bound is requested from the real compute_near_field and compared at the stated 1 %.', 'points closer than max(1 segment, 0.01 lambda) not enumerated (fixed 0.001 lambda finite difference: 2.8 % at lambda/480 segments, DESIGN 3/C04)', '3/C04')
 NA = {}
 def main():
     src = subprocess.run(['git', '-C', '/repo', 'log', '--format=%H %s'], capture_output=True, text=True).stdout
